@@ -383,6 +383,13 @@ func (g *Generator) generateWithoutSaving(parents []*theTypeInfo, t reflect.Type
 						return nil, err
 					}
 				}
+				if fieldInfo.JSONString && ref != nil && ref.Value != nil && isQuotedByStringOption(fType) {
+					// encoding/json writes such a field as a JSON string holding the value
+					quoted := *ref.Value
+					quoted.Type = &openapi3.Types{"string"}
+					quoted.Format, quoted.Min, quoted.Max = "", nil, nil
+					ref = openapi3.NewSchemaRef("", &quoted)
+				}
 				if ref != nil {
 					g.SchemaRefs[ref]++
 					schema.WithPropertyRef(fieldName, ref)
@@ -449,6 +456,22 @@ func (g *Generator) generateTypeName(t reflect.Type) string {
 	}
 
 	return t.Name()
+}
+
+// isQuotedByStringOption reports whether encoding/json honours the ",string" tag option for a
+// field of type t: booleans, numbers and strings, directly or behind one unnamed pointer.
+func isQuotedByStringOption(t reflect.Type) bool {
+	if t.Name() == "" && t.Kind() == reflect.Ptr {
+		t = t.Elem()
+	}
+	switch t.Kind() {
+	case reflect.Bool, reflect.String,
+		reflect.Int, reflect.Int8, reflect.Int16, reflect.Int32, reflect.Int64,
+		reflect.Uint, reflect.Uint8, reflect.Uint16, reflect.Uint32, reflect.Uint64, reflect.Uintptr,
+		reflect.Float32, reflect.Float64:
+		return true
+	}
+	return false
 }
 
 func (g *Generator) generateCycleSchemaRef(t reflect.Type, schema *openapi3.Schema) *openapi3.SchemaRef {
